@@ -91,11 +91,53 @@ UNITS = {
 }
 
 
+_TMS = "okdmr.dmrlib.motorola.text_messaging_service"
+_TFLAGS = {k: "int" for k in ("has_more_headers", "is_acknowledged", "is_reserved", "is_control_message", "pdu_type")}
+
+UNITS["Tms"] = dict(
+    functions=[
+        # FirstHeader.from_bytes passes bits[i] (ints) for the flags and ba2int(...) for the type
+        (_TMS, "FirstHeader.__init__", dict(params=_TFLAGS)),
+        # as_bytes passes a bool
+        (_TMS, "FirstHeader.set_has_more_headers"),
+        (_TMS, "FirstHeader.from_bytes", dict(consts=_BIG, ret=("obj", "FirstHeader"))),
+        (_TMS, "FirstHeader.as_bytes", dict(consts=_BIG)),
+        (_TMS, "AvailabilitySecondHeader.__init__"),
+        (_TMS, "AvailabilitySecondHeader.from_bytes", dict(consts=_BIG, ret=("obj", "AvailabilitySecondHeader"))),
+        (_TMS, "AvailabilitySecondHeader.as_bytes", dict(consts=_BIG)),
+        (_TMS, "TextMessagingService.__init__"),
+        (_TMS, "TextMessagingService.decode_sn_and_encoding"),
+        (_TMS, "TextMessagingService.encode_sn_and_encoding", dict(consts=_BIG)),
+        (_TMS, "TextMessagingService.encode_address_field"),
+        # Optional[...] is what the annotation says: falling off the end (a type that is none of the three) returns None
+        (_TMS, "TextMessagingService.from_bytes", dict(consts=_BIG)),
+        (_TMS, "TextMessagingService.as_bytes", dict(consts=_BIG)),
+    ],
+    classes=[
+        (_TMS, "FirstHeader"),
+        (_TMS, "AvailabilitySecondHeader"),
+        (_TMS, "TextMessagingService"),
+    ],
+    enums={
+        "TMSEncoding": ("Dmr.Gen.Tms.encodingVal", "Dmr.Gen.Tms.encodingGraph"),
+        # members identified with their values; the graph gives the value
+        "TMSDeviceCapability": ("V", "Dmr.Gen.Tms.capabilityGraph"),
+    },
+    tenums={
+        # member = its number in this order (the order of Gen/Tms.pduTypeVal; checked by a generated `decide`)
+        "TMSPDUType": dict(vals="Dmr.Gen.Tms.pduTypeVal", graph="Dmr.Gen.Tms.pduTypeGraph",
+                           order=["SERVICE_AVAILABILITY", "TMS_ACKNOWLEDGEMENT", "SIMPLE_TEXT_MESSAGE"]),
+    },
+    externals=_BITS_EXT,
+    imports=["DmrVerif.Gen.Tms"],
+)
+
+
 def _make(name):
     def gen():
         u = UNITS[name]
         return _obj().translate_unit(name, u["functions"], u["classes"], u["externals"], u["enums"], u["imports"],
-                                     header=HEADER)  # noqa: F821
+                                     header=HEADER, tenums=u.get("tenums"))  # noqa: F821
 
     gen.__name__ = "gen_transl_" + name.lower()
     return gen
